@@ -150,8 +150,8 @@ func normalizeRetryAfter(
 	switch retryAfterType {
 
 	case sharedConfig.RetryAfterAbsoluteEpoch:
-		now := clock.Now().Unix()
-		return retryAfterNum - float64(now), nil
+		now := clock.Now()
+		return retryAfterNum - float64(now.Unix()) - float64(now.Nanosecond())/1e9, nil
 
 	case sharedConfig.RetryAfterRelativeSeconds:
 		return retryAfterNum, nil
